@@ -230,6 +230,22 @@ func genPayload(it WireItem) []byte {
 			b = append(b, 0, 0, 0, 1) // ends with a start code
 		}
 		return b
+	case "cmd_nest_arr":
+		// a command whose object holds a property that nests strict / ecma arrays / objects n deep
+		var f rtmpc.Amf
+		f.Str([]string{"connect", "publish", "play", "xyz"}[it.Shape%4]).Num(1)
+		b := append(f.B, 3, 0, 3, 'a', 'p', 'p', 2, 0, 4, 'l', 'i', 'v', 'e', 0, 1, 'n')
+		for i := 0; i < n; i++ {
+			switch it.Shape / 4 % 3 {
+			case 0:
+				b = append(b, 10, 0, 0, 0, 1)
+			case 1:
+				b = append(b, 8, 0, 0, 0, 1, 0, 1, 'a')
+			default:
+				b = append(b, 3, 0, 1, 'a')
+			}
+		}
+		return append(b, 5)
 	case "meta_nest_arr", "meta_nest_ecma":
 		var f rtmpc.Amf
 		if it.Shape%2 == 0 {
@@ -556,11 +572,14 @@ func genWireItems(r *sim.Rng, n int, asPublisher bool) []WireItem {
 			if quickTier && depth > 400000 {
 				depth = 400000 // the 16 MiB messages take seconds each: thorough tier only
 			}
-			gen := []string{"amf_nest_obj", "amf_nest_arr", "amf_nest_ecma", "meta_nest"}[r.Intn(4)]
+			gen := []string{"amf_nest_obj", "amf_nest_arr", "amf_nest_ecma", "meta_nest", "meta_nest_arr", "meta_nest_ecma", "cmd_nest_arr", "cmd_nest_arr"}[r.Intn(8)]
 			if gen == "amf_nest_ecma" && depth > 2000000 {
 				depth = 2000000
 			}
-			items = append(items, WireItem{Kind: "msg", Type: []int{20, 18, 17}[r.Intn(3)], Csid: 3, Msid: r.Intn(2), Gen: gen, N: depth})
+			items = append(items, WireItem{Kind: "msg", Type: []int{20, 18, 17}[r.Intn(3)], Csid: 3, Msid: r.Intn(2), Gen: gen, N: depth, Shape: r.Intn(64)})
+			if gen == "cmd_nest_arr" {
+				items[len(items)-1].Type = 20
+			}
 		case 7: // malformed chunk headers
 			items = append(items, WireItem{Kind: "badchunk", Fmt: r.Intn(4), Csid: []int{0, 1, 2, 63, 64, 255, 319, 65535}[r.Intn(8)], Shape: r.Intn(3), Type: types[r.Intn(len(types))], Msid: r.Intn(3),
 				Ts: []uint32{0, 1, 0xFFFFFE, 0xFFFFFF, 0x1000000, 0xFFFFFFFF}[r.Intn(6)], Len: []int{-1, -1, 0, 1, 5, 100, 4096, 70000, -1, -1, 0xFFFFFF, 0x800000}[r.Intn(12)], Gen: "rand", N: r.Intn(300), Seed: seed})
